@@ -527,11 +527,13 @@ Section CLoop.
             let prevQB := chQB c in
             match bodyf (set_chQB true c) w with
             | ItNext c' w' =>
+              let c' := set_cerr None c' in
               match cloop_step (set_chQB prevQB c') cur with
               | Some (c'', nxt) => cloop_iter fuel' c'' w' (S trips) nxt
               | None => OutOfFuel    (* unknown step operator: the Go loop never advances *)
               end
             | ItStop c' w' =>
+              let c' := set_cerr None c' in
               match cloop_step (set_chQB prevQB c') cur with
               | Some (c'', _) => cloop_finish c'' w' (S trips)
               | None => cloop_finish (set_cerr (Some EWrongLoopOp) (set_chQB prevQB c')) w' (S trips)
@@ -642,6 +644,8 @@ Section Interp.
     end.
 
   Fixpoint write_node (n : node) (c : ctx) (w : wr) {struct n} : outcome :=
+    (* every node starts with a clean slate: Ctx.Err of an earlier node is forgotten *)
+    let c := set_cerr None c in
     match n with
     | NRaw raw =>
       let (w1, e) := write_raw c w raw in Out c w1 e
@@ -655,7 +659,7 @@ Section Interp.
         | ChUnsupported => Unsupported
         | ChOk c2 v2 =>
           match cerr c2 with
-          | Some _ => Out c2 w None                 (* modifier failed: nothing printed, no error returned *)
+          | Some _ => Out (set_cerr None c2) w None  (* modifier failed: nothing printed, the error is dropped *)
           | None =>
             match v2 with
             | VNil => Out c2 w None
